@@ -207,9 +207,17 @@ class _BaseLayout(MaildirLayout[_MaildirT], metaclass=ABCMeta):
     def get_folder(self, name: str, delimiter: str) -> _MaildirT:
         path = self.get_path(name, delimiter)
         try:
-            return self._maildir(path, create=False)
+            maildir = self._maildir(path, create=False)
         except NoSuchMailboxError as exc:
             raise FileNotFoundError(path) from exc
+        # If the process died while the folder was being created, some of
+        # its sub-directories may be missing. The folder is listed, so it
+        # must also be usable.
+        for subdir in ('tmp', 'new', 'cur'):
+            subdir_path = os.path.join(path, subdir)
+            if not os.path.isdir(subdir_path):
+                os.mkdir(subdir_path, 0o700)
+        return maildir
 
     def add_folder(self, name: str, delimiter: str) -> None:
         parts = self._split(name, delimiter)
